@@ -45,7 +45,10 @@ ENDKINDS = ["obj", "obj", "obj", "none", "none", "zero", "false", "empty"]  # No
 def gen(rng, tier):
     if rng.random() < 0.2:
         return gen_multi(rng, tier)
-    ending = rng.choice(["endbody", "endbody", "raise", "close_sub", "kill"])
+    ending = rng.choice(["endbody", "endbody", "raise", "close_sub", "close_sub", "kill"])
+    # the peer's end of a sub channel can also go away by being dropped while it has a callback of its own: the
+    # receiving side is told "last message" and stays in the sendonly state
+    lastmsg = ending == "close_sub" and rng.random() < 0.4
     transport = rng.choices(["popen", "bare", "socket", "proxy"], [55, 10, 20, 15])[0]
     backend = rng.choice(["thread", "thread", "main_thread_only", "gevent"])
     specs, gwi = L.gateways_for(transport, backend)
@@ -95,7 +98,10 @@ def gen(rng, tier):
     if ending == "raise":
         sops.append(["raise", "body boom"])
     elif ending == "close_sub":
-        sops.append(["close", "s"])
+        if lastmsg:
+            sops += [["setcb", "s", False, None], ["drop", "s"], ["gc"]]
+        else:
+            sops.append(["close", "s"])
         sops.append(["latch_set", "closed"])
     elif ending == "kill":
         # SIGKILL the worker when one of its sends is invoked / has returned, or at a random step
@@ -128,7 +134,7 @@ def gen(rng, tier):
         # connection already lost (channel in the sendonly state), ordinary local clean-up, and only then the callback
         rops.append(["sleep", 20.0])
         rops.append(["close", T])
-    rops.append(["setcb", T, want_end, None, None, None, "cb-end"])
+    rops.append(["setcb", T, want_end, None, None, None, "cb-end", want_end and rng.random() < 0.3])
     dropped = want_end and recv_side == "i" and T == "c0" and rng.random() < 0.25
     if dropped:
         # the callback stays active although the channel object is gone: the endmarker must still arrive
@@ -175,7 +181,7 @@ def gen(rng, tier):
     return {"gateways": specs, "actors": actors, "knobs": knobs, "strategy": L.gen_strategy(rng),
             "preempt": L.gen_preempt(rng, 3000), "preempt_at": pat, "faults": faults, "transport": transport, "backend": backend,
             "gwi": gwi, "mode": "single", "ending": ending, "subject": T, "recv_side": recv_side, "dir": d,
-            "R": R_aid, "S": S_aid, "want_end": want_end, "pre": pre, "pos": pos, "n": n, "race": race,
+            "R": R_aid, "S": S_aid, "want_end": want_end, "pre": pre, "pos": pos, "n": n, "race": race, "lastmsg": lastmsg,
             "endmarker_kind": rng.choice(ENDKINDS)}
 
 
